@@ -49,7 +49,10 @@ class SchedGen:
                 parts.append('h%d = [] spawn { %s }' % (nid, self.body(nid, handles, depth + 1)))
             elif k == 'wait' and handles:
                 self.stats['waituntil'] += 1
-                parts.append('waitUntil { scriptDone %s }' % r.choice(handles))
+                h = r.choice(handles)
+                # the wait only ends when its condition holds: behind it the other script is done
+                parts.append('waitUntil { scriptDone %s }; tr pushBack [%d, if (scriptDone %s) then {3001} else {3000}]' % (h, sid, h))
+                exp.append(3001)
             else:
                 step += 1
                 parts.append('tr pushBack [%d, %d]' % (sid, 1000 + step))
